@@ -49,6 +49,16 @@ paths:
           explode: true
           schema: {type: array, uniqueItems: true, maxItems: 4, items: {type: string, pattern: '^[a-z]{1,6}(-MARK)?$'}}
         - {name: limit, in: query, schema: {type: integer, default: 10, maximum: 100}}
+        - name: filter
+          in: query
+          style: deepObject
+          explode: true
+          schema: {type: object, required: [kind], properties: {kind: {type: string, enum: [cat, dog]}, min: {type: integer}}}
+        - name: page
+          in: query
+          style: deepObject
+          explode: true
+          schema: {type: object, properties: {size: {type: integer, maximum: 50}, after: {type: string}}}
         - {name: X-Trace, in: header, schema: {type: string, format: date}}
         - {name: sess, in: cookie, schema: {type: string, default: anon, pattern: '^[a-z0-9]+MARKc?$|^anon$'}}
       responses:
@@ -94,13 +104,21 @@ paths:
       requestBody:
         content:
           application/x-www-form-urlencoded:
-            schema:
-              type: object
-              required: [name]
-              properties:
-                name: {type: string, pattern: '^[A-Za-z]+MARKf?$'}
-                count: {type: integer}
-                tags: {type: array, uniqueItems: true, items: {type: string}}
+            schema: {$ref: '#/components/schemas/FormBody'}
+            encoding:
+              tags: {style: form, explode: true}
+      responses:
+        '204': {description: none}
+  /form2:
+    post:
+      operationId: postForm2
+      security: []
+      requestBody:
+        content:
+          application/x-www-form-urlencoded:
+            schema: {$ref: '#/components/schemas/FormBody'}
+            encoding:
+              tags: {style: form, explode: false}
       responses:
         '204': {description: none}
   /upload:
@@ -198,6 +216,13 @@ components:
         species: {type: string, enum: [dog]}
         tricks: {type: array, uniqueItems: true, items: {type: string, pattern: '^[a-z]+MARKd?$'}}
         loud: {type: boolean, default: true}
+    FormBody:
+      type: object
+      required: [name]
+      properties:
+        name: {type: string, pattern: '^[A-Za-z]+MARKf?$'}
+        count: {type: integer}
+        tags: {type: array, uniqueItems: true, minItems: 2, items: {type: string}}
     Err:
       type: object
       required: [error]
